@@ -2,7 +2,7 @@
 import itertools
 import z3
 from .common import *  # noqa: F401,F403
-from .common import tm, X, MOD, P_FIELD, N_ORDER, R256, limbs_of, sym_limbs, cat_limbs, cat_bytes, sym_bytes, new_machine
+from .common import tm, X, MOD, P_FIELD, N_ORDER, R256, limbs_of, sym_limbs, cat_limbs, cat_bytes, sym_bytes, new_machine, int_of_limbs
 
 W64 = 2 ** 64
 
@@ -340,3 +340,466 @@ def mult_kernels(chk, prog, ring, gl):
         for k, n in enumerate(carry_only):
             chk.add('%s/lowword-zero-%d' % (label, k), [], tm.eq(tm.extract(n, 63, 0), 0, 64), mode='bv', timeout=120)
         chk.add(label + '/montgomery-identity', st['pc'], None, mode='int', timeout=timeout, extra_int=extra, int_goal=goal)
+
+
+# ==============================================================================================
+# Method level (Element / Scalar): the multiplicative kernels are OPAQUE here (uninterpreted
+# functions of the 256-bit limb value), so nothing about Montgomery form can be exploited: a method
+# that inspected Montgomery limbs directly (parity, comparison, encoding without conversion) would
+# not match its specification.  Meaning of the UFs comes from the kernel obligations above.
+def install_uf_kernels(m, ring):
+    F = ring.fiat
+    tag = ring.which
+
+    def ld(p):
+        return tm.lift(cat_limbs(list(m.load(p))), 256)
+
+    def st(p, v):
+        m.store(p, [tm.extract(v, 64 * i + 63, 64 * i) if isinstance(v, tm.T) else (v >> (64 * i)) & (W64 - 1) for i in range(4)])
+
+    def mulM(a, b):
+        if a.id > b.id:
+            a, b = b, a
+        return tm.uf('mulM_' + tag, [a, b], 256)
+    C = m.contracts
+    C[F + 'Mul'] = lambda m, a: st(a[0], mulM(ld(a[1]), ld(a[2])))
+    C[F + 'Square'] = lambda m, a: st(a[0], mulM(ld(a[1]), ld(a[1])))
+    C[F + 'ToMontgomery'] = lambda m, a: st(a[0], tm.uf('toM_' + tag, [ld(a[1])], 256))
+    C[F + 'FromMontgomery'] = lambda m, a: st(a[0], tm.uf('fromM_' + tag, [ld(a[1])], 256))
+    C[F + 'Add'] = lambda m, a: st(a[0], tm.trunc(spec_addmod(ld(a[1]), ld(a[2]), ring.m), 256))
+    C[F + 'Sub'] = lambda m, a: st(a[0], tm.trunc(spec_submod(ld(a[1]), ld(a[2]), ring.m), 256))
+    C[F + 'Opp'] = lambda m, a: st(a[0], tm.trunc(spec_negmod(ld(a[1]), ring.m), 256))
+    C[F + 'SetOne'] = lambda m, a: st(a[0], ring.R)
+    return mulM
+
+
+UF_KERNEL_SUMMARY = {
+    'fiat.{Mul,Square,ToMontgomery,FromMontgomery} (method level)': 'opaque uninterpreted functions of the limb value; meaning supplied by kernel/*/{range,montgomery-identity}',
+    'fiat.{Add,Sub,Opp,SetOne}': 'closed forms discharged by kernel/{Add,Sub,Opp}/{range,value}, kernel/constants',
+}
+
+
+def elem_obj(m, ring, limbs):
+    return m.new_obj(None, tree=[[], list(limbs)], label=ring.which + '-element')
+
+
+def elem_limbs(ptr):
+    return list(ptr.obj.tree[1])
+
+
+def methods(chk, prog, ring, gl):
+    M = ring.meth
+    m_ = ring.m
+    tag = ring.which
+    chk.summaries.update(UF_KERNEL_SUMMARY)
+
+    def with_machine(fn):
+        def h(ctx):
+            m = new_machine(prog, ctx, gl)
+            mulM = install_uf_kernels(m, ring)
+            r = fn(ctx, m, mulM)
+            chk.note_machine(m)
+            return r
+        return h
+
+    def objs_for(m, part, names):
+        objs = {}
+        for n in names:
+            c = part[n]
+            if c not in objs:
+                objs[c] = elem_obj(m, ring, sym_limbs(n))
+        return {n: X.Ptr(objs[part[n]], ()) for n in names}, {n: tm.lift(cat_limbs([tm.var('%s_%d' % ([k for k in names if part[k] == part[n]][0], i), 64) for i in range(4)]), 256) for n in names}
+
+    def V(ptr):
+        return tm.lift(cat_limbs(elem_limbs(ptr)), 256)
+
+    # ---- binary / unary ring operations, every alias partition of (receiver, a, b)
+    binops = {'Add': lambda A, B, mulM: tm.trunc(spec_addmod(A, B, m_), 256),
+              'Subtract': lambda A, B, mulM: tm.trunc(spec_submod(A, B, m_), 256),
+              'Multiply': lambda A, B, mulM: mulM(A, B)}
+    for name, spec in binops.items():
+        for part in partitions(['fe', 'a', 'b']):
+            def f(ctx, m, mulM, name=name, spec=spec, part=part):
+                ptrs, vals = objs_for(m, part, ['fe', 'a', 'b'])
+                r = m.call(M + name, [ptrs['fe'], ptrs['a'], ptrs['b']])
+                ctx.check(r.same(ptrs['fe']), 'returns-receiver')
+                ctx.check(tm.eq(V(ptrs['fe']), spec(vals['a'], vals['b'], mulM), 256), 'bv:value')
+                for n in ('a', 'b'):
+                    if part[n] != part['fe']:
+                        ctx.check(tm.eq(V(ptrs[n]), vals[n], 256), 'bv:operand-unchanged')
+            chk.explore('%s/method/%s[%s]' % (tag, name, part_label(part)), with_machine(f), mode='bv')
+    unops = {'Negate': lambda A, mulM: tm.trunc(spec_negmod(A, m_), 256),
+             'Square': lambda A, mulM: mulM(A, A),
+             'Set': lambda A, mulM: A}
+    for name, spec in unops.items():
+        for part in partitions(['fe', 'a']):
+            def f(ctx, m, mulM, name=name, spec=spec, part=part):
+                ptrs, vals = objs_for(m, part, ['fe', 'a'])
+                r = m.call(M + name, [ptrs['fe'], ptrs['a']])
+                ctx.check(r.same(ptrs['fe']), 'returns-receiver')
+                ctx.check(tm.eq(V(ptrs['fe']), spec(vals['a'], mulM), 256), 'bv:value')
+                if part['a'] != part['fe']:
+                    ctx.check(tm.eq(V(ptrs['a']), vals['a'], 256), 'bv:operand-unchanged')
+            chk.explore('%s/method/%s[%s]' % (tag, name, part_label(part)), with_machine(f), mode='bv')
+
+    def f_zero_one(ctx, m, mulM):
+        o = elem_obj(m, ring, sym_limbs('pre'))
+        m.call(M + 'Zero', [X.Ptr(o, ())])
+        ctx.check(tm.eq(V(X.Ptr(o, ())), 0, 256), 'bv:Zero')
+        o = elem_obj(m, ring, sym_limbs('pre2'))
+        m.call(M + 'One', [X.Ptr(o, ())])
+        ctx.check(tm.eq(V(X.Ptr(o, ())), ring.R, 256), 'bv:One=mont(1)')
+    chk.explore('%s/method/Zero,One' % tag, with_machine(f_zero_one), mode='bv')
+
+    # ---- repeated squaring
+    pow2k = M + ('Pow2k' if tag == 'field' else 'pow2k')
+    for part in partitions(['fe', 'a']):
+        for k in range(0, 9):
+            def f(ctx, m, mulM, part=part, k=k):
+                ptrs, vals = objs_for(m, part, ['fe', 'a'])
+                try:
+                    m.call(pow2k, [ptrs['fe'], ptrs['a'], k])
+                except X.GoPanic:
+                    ctx.check(k == 0, 'panics-only-for-k=0')
+                    return
+                ctx.check(k != 0, 'k=0-must-panic')
+                e = vals['a']
+                for _ in range(k):
+                    e = mulM(e, e)
+                ctx.check(tm.eq(V(ptrs['fe']), e, 256), 'bv:value=a^(2^k)')
+            chk.explore('%s/method/Pow2k[%s]@k=%d' % (tag, part_label(part), k), with_machine(f), mode='bv')
+
+    # ---- conditional select / negate (ctrl is an arbitrary uint64)
+    for part in partitions(['fe', 'a', 'b']):
+        def f(ctx, m, mulM, part=part):
+            ptrs, vals = objs_for(m, part, ['fe', 'a', 'b'])
+            ctrl = tm.var('ctrl', 64)
+            m.call(M + 'ConditionalSelect', [ptrs['fe'], ptrs['a'], ptrs['b'], ctrl])
+            ctx.check(tm.eq(V(ptrs['fe']), tm.ite(tm.eq(ctrl, 0, 64), vals['a'], vals['b'], 256), 256), 'bv:value')
+        chk.explore('%s/method/ConditionalSelect[%s]' % (tag, part_label(part)), with_machine(f), mode='bv')
+    for part in partitions(['fe', 'a']):
+        def f(ctx, m, mulM, part=part):
+            ptrs, vals = objs_for(m, part, ['fe', 'a'])
+            ctrl = tm.var('ctrl', 64)
+            m.call(M + 'ConditionalNegate', [ptrs['fe'], ptrs['a'], ctrl])
+            ctx.check(tm.eq(V(ptrs['fe']), tm.ite(tm.eq(ctrl, 0, 64), vals['a'], tm.trunc(spec_negmod(vals['a'], m_), 256), 256), 256), 'bv:value')
+        chk.explore('%s/method/ConditionalNegate[%s]' % (tag, part_label(part)), with_machine(f), mode='bv')
+
+    # ---- predicates
+    for part in partitions(['fe', 'a']):
+        def f(ctx, m, mulM, part=part):
+            ptrs, vals = objs_for(m, part, ['fe', 'a'])
+            r = m.call(M + 'Equal', [ptrs['fe'], ptrs['a']])
+            ctx.check(tm.eq(r, tm.ite(tm.eq(vals['fe'], vals['a'], 256), 1, 0, 64), 64), 'bv:Equal')
+        chk.explore('%s/method/Equal[%s]' % (tag, part_label(part)), with_machine(f), mode='bv')
+
+    def f_pred(ctx, m, mulM):
+        a = sym_limbs('a')
+        A = tm.lift(cat_limbs(a), 256)
+        p = X.Ptr(elem_obj(m, ring, a), ())
+        r = m.call(M + 'IsZero', [p])
+        ctx.check(tm.eq(r, tm.ite(tm.eq(A, 0, 256), 1, 0, 64), 64), 'bv:IsZero')
+        plain = tm.uf('fromM_' + tag, [A], 256)
+        if tag == 'field':
+            r = m.call(M + 'IsOdd', [p])
+            ctx.check(tm.eq(r, tm.zext(tm.extract(plain, 0, 0), 64), 64), 'bv:IsOdd=parity-of-plain-value')
+        else:
+            r = m.call(M + 'IsGreaterThanHalfN', [p])
+            half = (m_ - 1) // 2
+            ctx.check(tm.eq(r, tm.ite(tm.ult(half, plain, 256), 1, 0, 64), 64), 'bv:IsGreaterThanHalfN=plain>(n-1)/2')
+            g = m.load(m.global_ptr(MOD + '.halfNSat'))
+            ctx.check(tm.eq(cat_limbs(list(g)), half, 256), 'halfNSat=(n-1)/2')
+        ctx.check(tm.eq(V(p), A, 256), 'bv:receiver-unchanged')
+    chk.explore('%s/method/predicates' % tag, with_machine(f_pred), mode='bv')
+
+    # ---- decoding / encoding
+    def f_setbytes(ctx, m, mulM):
+        bs = sym_bytes('s', 32)
+        S = tm.lift(cat_bytes(bs), 256)
+        src = m.new_obj(None, tree=list(bs), label='src')
+        fe = X.Ptr(elem_obj(m, ring, sym_limbs('pre')), ())
+        r, flag = m.call(M + 'SetBytes', [fe, X.Ptr(src, ())])
+        ge = tm.ule(m_, S, 256)
+        red = tm.ite(ge, tm.bv('sub', S, m_, 256), S, 256)
+        ctx.check(r.same(fe), 'returns-receiver')
+        ctx.check(tm.eq(flag, tm.ite(ge, 1, 0, 64), 64), 'bv:flag=(src>=m)')
+        ctx.check(tm.eq(V(fe), tm.uf('toM_' + tag, [red], 256), 256), 'bv:value=toM(src mod m)')
+        ctx.check(tm.eq(cat_bytes(list(src.tree)), S, 256), 'bv:src-unchanged')
+    chk.explore('%s/method/SetBytes' % tag, with_machine(f_setbytes), mode='bv')
+
+    def f_setcanon(ctx, m, mulM):
+        bs = sym_bytes('s', 32)
+        S = tm.lift(cat_bytes(bs), 256)
+        src = m.new_obj(None, tree=list(bs), label='src')
+        pre = sym_limbs('pre')
+        fe = X.Ptr(elem_obj(m, ring, pre), ())
+        r, err = m.call(M + 'SetCanonicalBytes', [fe, X.Ptr(src, ())])
+        if err is None:
+            ctx.check(tm.ult(S, m_, 256), 'bv:accepted-implies-canonical')
+            ctx.check(r.same(fe), 'returns-receiver')
+            ctx.check(tm.eq(V(fe), tm.uf('toM_' + tag, [S], 256), 256), 'bv:value=toM(src)')
+            return 'accept'
+        ctx.check(tm.ule(m_, S, 256), 'bv:rejected-implies-noncanonical')
+        ctx.check(r.is_nil(), 'no-object-on-error')
+        ctx.check(tm.eq(V(fe), tm.lift(cat_limbs(pre), 256), 256), 'bv:receiver-unchanged-on-error')
+        return 'reject'
+    paths = chk.explore('%s/method/SetCanonicalBytes' % tag, with_machine(f_setcanon), mode='bv')
+    chk.add('%s/method/SetCanonicalBytes/witness-both-outcomes' % tag, [], {p.value for p in paths} == {'accept', 'reject'})
+
+    def f_bytes(ctx, m, mulM):
+        a = sym_limbs('a')
+        A = tm.lift(cat_limbs(a), 256)
+        p = X.Ptr(elem_obj(m, ring, a), ())
+        sl = m.call(M + 'Bytes', [p])
+        el = m.slice_elems(sl)
+        ctx.check(len(el) == 32, 'length-32')
+        ctx.check(tm.eq(cat_bytes(el), tm.uf('fromM_' + tag, [A], 256), 256), 'bv:bytes=BE(fromM(limbs))')
+        ctx.check(sl.obj is not p.obj and not sl.obj.is_global, 'fresh-buffer')
+        ctx.check(tm.eq(V(p), A, 256), 'bv:receiver-unchanged')
+    chk.explore('%s/method/Bytes' % tag, with_machine(f_bytes), mode='bv')
+
+    def f_fromu64(ctx, m, mulM):
+        l0 = tm.var('l0', 64)
+        fn = (MOD + '/internal/field.NewElementFromUint64') if tag == 'field' else (MOD + '.NewScalarFromUint64')
+        r = m.call(fn, [l0])
+        ctx.check(tm.eq(V(r), tm.uf('toM_' + tag, [tm.zext(l0, 256)], 256), 256), 'bv:value=toM(l0)')
+    chk.explore('%s/method/NewFromUint64' % tag, with_machine(f_fromu64), mode='bv')
+
+    if tag == 'field':
+        def f_canon(ctx, m, mulM):
+            bs = sym_bytes('s', 32)
+            src = m.new_obj(None, tree=list(bs), label='src')
+            r = m.call(MOD + '/internal/field.BytesAreCanonical', [X.Ptr(src, ())])
+            ctx.check(tm.eq(r, tm.ult(tm.lift(cat_bytes(bs), 256), m_, 256), 0), 'bv:BytesAreCanonical')
+        chk.explore('field/method/BytesAreCanonical', with_machine(f_canon), mode='bv')
+
+        def f_must(ctx, m, mulM):
+            bs = sym_bytes('s', 32)
+            S = tm.lift(cat_bytes(bs), 256)
+            src = m.new_obj(None, tree=list(bs), label='src')
+            fe = X.Ptr(elem_obj(m, ring, sym_limbs('pre')), ())
+            try:
+                m.call(M + 'MustSetCanonicalBytes', [fe, X.Ptr(src, ())])
+            except X.GoPanic:
+                ctx.check(tm.ule(m_, S, 256), 'bv:panics-only-when-noncanonical')
+                return
+            ctx.check(tm.ult(S, m_, 256), 'bv:noncanonical-must-panic')
+            ctx.check(tm.eq(V(fe), tm.uf('toM_field', [S], 256), 256), 'bv:value')
+        chk.explore('field/method/MustSetCanonicalBytes', with_machine(f_must), mode='bv')
+    else:
+        # Sum / Product over vectors with aliased entries and the receiver among them
+        maxlen = 6 if chk.thorough else 4
+        for fn in ('Sum', 'Product'):
+            for n in range(0, maxlen + 1):
+                patterns = [tuple(range(n))]
+                if n >= 1:
+                    patterns.append(tuple([0] * n))                      # all entries the same object
+                    patterns.append(tuple(['s'] + list(range(1, n))))    # receiver is entry 0
+                if n >= 2:
+                    patterns.append(tuple(list(range(n - 1)) + ['s']))   # receiver is the last entry
+                    patterns.append(tuple([0, 0] + list(range(2, n))))   # first two alias
+                for pat in patterns:
+                    def f(ctx, m, mulM, fn=fn, n=n, pat=pat):
+                        recv = elem_obj(m, ring, sym_limbs('recv'))
+                        objs = {'s': recv}
+                        vec = []
+                        for k in pat:
+                            if k not in objs:
+                                objs[k] = elem_obj(m, ring, sym_limbs('v%s' % k))
+                            vec.append(objs[k])
+                        vals = [tm.lift(cat_limbs(list(o.tree[1])), 256) for o in vec]
+                        arr = m.new_obj(None, tree=[X.Ptr(o, ()) for o in vec], label='vec')
+                        sl = X.Slice(arr, (), 0, n, n) if n else X.NILSLICE
+                        r = m.call(M + fn, [X.Ptr(recv, ()), sl])
+                        if fn == 'Sum':
+                            e = tm.const(0, 256)
+                            for v in vals:
+                                e = tm.trunc(spec_addmod(tm.lift(e, 256), v, m_), 256)
+                        else:
+                            e = tm.const(ring.R, 256)
+                            for v in vals:
+                                e = mulM(tm.lift(e, 256), v)
+                        ctx.check(r.same(X.Ptr(recv, ())), 'returns-receiver')
+                        ctx.check(tm.eq(V(X.Ptr(recv, ())), e, 256), 'bv:value')
+                        for o, v in zip(vec, vals):
+                            if o is not recv:
+                                ctx.check(tm.eq(tm.lift(cat_limbs(list(o.tree[1])), 256), v, 256), 'bv:entry-unchanged')
+                    chk.explore('scalar/method/%s@len%d[%s]' % (fn, n, ','.join(str(k) for k in pat)), with_machine(f), mode='bv')
+        chk.bounds.append('Scalar.Sum/Product: vector lengths 0..%d with distinct entries, all-equal entries, receiver first/last, first two aliased' % maxlen)
+
+
+# ==============================================================================================
+# Addition chains: executed in the exponent (monomial) domain.  An element is x^e and its limb
+# array holds the integer e; Mul adds exponents, Square doubles them.  The real SSA of the chain -
+# including the real Pow2k loops - is executed; the claim has no free variable (it holds for every x
+# by the exponent laws), so the final comparison is ground.
+def install_exponent_kernels(m, ring):
+    F = ring.fiat
+
+    def ld(p):
+        return int_of(m.load(p))
+
+    def int_of(l):
+        return sum(int(x) << (64 * i) for i, x in enumerate(l))
+
+    def st(p, e):
+        if e >= 1 << 256:
+            raise X.GoPanic("exponent domain overflow (chain computes an exponent >= 2^256)")
+        m.store(p, limbs_of(e))
+    m.contracts[F + 'Mul'] = lambda m, a: st(a[0], ld(a[1]) + ld(a[2]))
+    m.contracts[F + 'Square'] = lambda m, a: st(a[0], 2 * ld(a[1]))
+
+
+def chains(chk, prog, ring, gl):
+    tag = ring.which
+    M = ring.meth
+    targets = [('Invert', ring.m - 2)]
+    if tag == 'field':
+        targets.append(('pow3mod4', (ring.m - 3) // 4))
+    for name, want in targets:
+        for alias in (False, True):
+            res = {}
+
+            def h(ctx, name=name, alias=alias, res=res):
+                m = new_machine(prog, ctx, gl)
+                install_exponent_kernels(m, ring)
+                m.unwind = 400
+                x = elem_obj(m, ring, limbs_of(1))
+                z = x if alias else elem_obj(m, ring, limbs_of(0xdeadbeef))
+                r = m.call(M + name, [X.Ptr(z, ()), X.Ptr(x, ())])
+                res['e'] = int_of_limbs(list(z.tree[1]))
+                res['ret_ok'] = r.same(X.Ptr(z, ()))
+                res['x_after'] = int_of_limbs(list(x.tree[1]))
+                chk.note_machine(m)
+            lbl = '%s/chain/%s[%s]' % (tag, name, 'z=x' if alias else 'z|x')
+            chk.explore(lbl, h)
+            chk.add(lbl + '/exponent', [], res.get('e') == want, meta={'exponent_found': hex(res.get('e', -1)), 'exponent_wanted': hex(want)})
+            chk.add(lbl + '/returns-receiver', [], res.get('ret_ok') is True)
+            if not alias:
+                chk.add(lbl + '/operand-unchanged', [], res.get('x_after') == 1)
+    chk.notes.append('%s: Invert computes x^(m-2) (hence 1/x, and 0 for x=0, by Fermat - trusted)%s' % (
+        tag, '; pow3mod4 computes x^((p-3)/4)' if tag == 'field' else ''))
+
+
+# ==============================================================================================
+def field_extras(chk, prog, ring, gl):
+    """SqrtRatio / Sqrt data flow against RFC 9380 F.2.1.2, and SetWideBytes as exact arithmetic."""
+    from . import models
+    Fm = ring.meth
+    p = ring.m
+
+    def mk(ctx, mul):
+        m = new_machine(prog, ctx, gl, value_model=True)
+        models.install_value_model(m, mul=mul, which=('field',))
+        return m
+
+    mulU = models.mulmod_uf('mul_field')
+
+    def mul(a, b):
+        return mulU(a, b, p)
+
+    def powc1(x):
+        return tm.uf('pow_p_minus_3_over_4', [tm.lift(x, 256)], 256)
+
+    def V(ptr):
+        return tm.lift(cat_limbs(elem_limbs(ptr)), 256)
+
+    def install_pow(m):
+        def c(m, a):
+            v = tm.lift(cat_limbs(list(m.load(a[1])[1])), 256)
+            o = a[0].obj
+            m.store(X.Ptr(o, a[0].path + (1,)), models.split_limbs(powc1(v)))
+            return a[0]
+        m.contracts[Fm + 'pow3mod4'] = c
+    chk.summaries['(*field.Element).pow3mod4'] = 'x -> x^((p-3)/4): discharged by field/chain/pow3mod4/exponent'
+
+    def rfc_sqrt_ratio(u, v, c2):
+        tv1 = mul(v, v)
+        tv2 = mul(u, v)
+        tv1 = mul(tv1, tv2)
+        y1 = powc1(tv1)
+        y1 = mul(y1, tv2)
+        y2 = mul(y1, c2)
+        tv3 = mul(y1, y1)
+        tv3 = mul(tv3, v)
+        isqr = tm.eq(tv3, u, 256)
+        return isqr, tm.ite(isqr, y1, y2, 256)
+
+    c2_holder = {}
+    for part in partitions(['z', 'u', 'v']):
+        def h(ctx, part=part):
+            m = mk(ctx, 'uf')
+            install_pow(m)
+            objs = {}
+            for n in ('z', 'u', 'v'):
+                if part[n] not in objs:
+                    l = sym_limbs(n)
+                    ctx.assume(tm.ult(tm.lift(cat_limbs(l), 256), p, 256))
+                    objs[part[n]] = elem_obj(m, ring, l)
+            ptr = {n: X.Ptr(objs[part[n]], ()) for n in part}
+            u0, v0 = V(ptr['u']), V(ptr['v'])
+            c2 = V(m.load(m.global_ptr(MOD + '/internal/field.feC2')))
+            c2_holder['c2'] = tm.cval(c2)
+            r, flag = m.call(Fm + 'SqrtRatio', [ptr['z'], ptr['u'], ptr['v']])
+            isqr, y = rfc_sqrt_ratio(u0, v0, c2)
+            ctx.check(tm.eq(flag, tm.ite(isqr, 1, 0, 64), 64), 'bv:flag=RFC9380-isQR')
+            ctx.check(tm.eq(V(ptr['z']), y, 256), 'bv:value=RFC9380-F.2.1.2')
+            ctx.check(r.same(ptr['z']), 'returns-receiver')
+            for n in ('u', 'v'):
+                if part[n] != part['z']:
+                    ctx.check(tm.eq(V(ptr[n]), u0 if n == 'u' else v0, 256), 'bv:operand-unchanged')
+            chk.note_machine(m)
+        chk.explore('field/sqrt/SqrtRatio[%s]' % part_label(part), h, mode='bv')
+    chk.add('field/sqrt/c2^2=-Z=11', [], (c2_holder.get('c2', 0) ** 2) % p == 11, meta={'c2': hex(c2_holder.get('c2', 0))})
+
+    for part in partitions(['fe', 'a']):
+        def h(ctx, part=part):
+            m = mk(ctx, 'uf')
+            install_pow(m)
+            objs = {}
+            for n in ('fe', 'a'):
+                if part[n] not in objs:
+                    l = sym_limbs(n)
+                    ctx.assume(tm.ult(tm.lift(cat_limbs(l), 256), p, 256))
+                    objs[part[n]] = elem_obj(m, ring, l)
+            ptr = {n: X.Ptr(objs[part[n]], ()) for n in part}
+            a0 = V(ptr['a'])
+            c2 = V(m.load(m.global_ptr(MOD + '/internal/field.feC2')))
+            r, flag = m.call(Fm + 'Sqrt', [ptr['fe'], ptr['a']])
+            isqr, y = rfc_sqrt_ratio(a0, 1, c2)
+            ctx.check(tm.eq(flag, tm.ite(isqr, 1, 0, 64), 64), 'bv:flag')
+            ctx.check(tm.eq(V(ptr['fe']), tm.ite(isqr, y, 0, 256), 256), 'bv:root-or-zero')
+            chk.note_machine(m)
+        chk.explore('field/sqrt/Sqrt[%s]' % part_label(part), h, mode='bv')
+    chk.notes.append('SqrtRatio/Sqrt: the code is shown to compute RFC 9380 F.2.1.2 (optimized sqrt_ratio for q = 3 mod 4) step for step, '
+                     'with c1 = (p-3)/4 and c2^2 = -Z; that this procedure returns (true, sqrt(u/v)) exactly when u/v is square is the RFC\'s claim (Euler criterion) and is trusted')
+
+    # ---- SetWideBytes: value = OS2IP(src) mod p for every length 32..64, panic outside
+    for L in range(31, 66):
+        def h(ctx, L=L):
+            m = mk(ctx, 'exact')
+            bs = sym_bytes('s', L)
+            fe = X.Ptr(elem_obj(m, ring, sym_limbs('pre')), ())
+            try:
+                r = m.call(Fm + 'SetWideBytes', [fe, m.new_byte_slice(bs, 'src')])
+            except X.GoPanic:
+                ctx.check(L < 32 or L > 64, 'panics-only-outside-32..64')
+                chk.note_machine(m)
+                return 'panic'
+            ctx.check(32 <= L <= 64, 'must-panic-outside-32..64')
+            # OS2IP(src) = a + b*2^192 + c*2^384 (positional split of the integer); reduction mod p is a ring
+            # homomorphism, so 2^384 may be replaced by the spec-side constant 2^384 mod p (python pow)
+            full = [0] * (64 - L) + bs
+            a, b, c = cat_bytes(full[40:]), cat_bytes(full[16:40]), cat_bytes(full[:16])
+            K384 = pow(2, 384, p)
+
+            def z(v, w):
+                return tm.zext(tm.lift(v, w), 520) if tm.is_sym(v) else v
+            T = tm.bv('add', tm.bv('add', z(a, 192), tm.bv('mul', z(b, 192), 2 ** 192, 520), 520), tm.bv('mul', z(c, 128), K384, 520), 520)
+            spec = tm.trunc(tm.bv('urem', T, p, 520), 256)
+            ctx.check(tm.eq(V(fe), spec, 256), 'value=OS2IP(src) mod p')
+            ctx.check(r.same(fe), 'returns-receiver')
+            chk.note_machine(m)
+            return 'ok'
+        chk.explore('field/wide/SetWideBytes@len%d' % L, h, mode='int', timeout=300)
+    chk.bounds.append('SetWideBytes: every length 31..65 (31 and 65 must panic), all byte contents')
